@@ -206,7 +206,10 @@ class PyFatFS(FS):
                 dentry.filesize = 0
                 old_cluster = dentry.get_cluster()
                 dentry.set_cluster(0)
-                self.fs.free_cluster_chain(old_cluster)
+                if old_cluster != 0:
+                    self.fs.free_cluster_chain(old_cluster)
+                self.fs.update_directory_entry(base)
+                self.fs.flush_fat()
                 return True
 
         # Determine 8DOT3 file name + LFN
